@@ -512,16 +512,28 @@ def _detail(c):
             f"written(last)={f0i['wu'][-1]} restored={f0o['ru']}{extra}")
 
 
+def _init_worker(jit_off):
+    """Before porepy / numba are imported.  Exporter._export_grid_2d re-creates its numba function on every call
+    (about 30 ms of cache loading each); the quick tier runs the same Python source with the JIT switched off, the
+    thorough tier runs it jitted."""
+    import os
+
+    if jit_off:
+        os.environ["NUMBA_DISABLE_JIT"] = "1"
+
+
 def _execute(ctx, cases, pool=True):
     for k, c in enumerate(cases):
         c["folder"] = str(ctx.work / "cwd" / f"case{k}")
     if not pool:
+        _init_worker(ctx.quick)
         res = [_work(c) for c in cases]
     else:
         import multiprocessing as mp
 
         # fresh interpreters: porepy (numba, OpenMP) is never imported in the harness process itself
-        with ProcessPoolExecutor(max_workers=WORKERS, mp_context=mp.get_context("spawn")) as ex:
+        with ProcessPoolExecutor(max_workers=WORKERS, mp_context=mp.get_context("spawn"), initializer=_init_worker,
+                                 initargs=(ctx.quick,)) as ex:
             res = list(ex.map(_work, cases, chunksize=8))
     for r in res:
         if "machinery" in r:
@@ -547,7 +559,9 @@ def run(ctx):
                 "time steps were exported; distinct = (layouts of all files, route, steps)")
     ctx.assumptions = ["cell data are pairwise distinct integers (a scalar and a 3-vector per cell) stored as float64",
                        "the md-grid read into is a freshly built copy of the one exported (same construction)",
-                       "times and step sizes are small dyadic rationals"]
+                       "times and step sizes are small dyadic rationals",
+                       "quick tier: numba JIT disabled in the worker processes (same Python source interpreted); "
+                       "thorough tier: JIT enabled"]
     import time as _t
     t0 = _t.time()
     en = _enumerate(ctx)
